@@ -98,7 +98,22 @@ func (mw MeshWriter) Write(mesh modeling.Mesh, writer io.Writer) error {
 			})
 		}
 		for _, p := range mesh.Float2Attributes() {
-			if claimedV2[p] || p == modeling.TexCoordAttribute {
+			if claimedV2[p] {
+				continue
+			}
+			if p == modeling.TexCoordAttribute {
+				// Triangle meshes store texture coordinates per face corner.
+				// Any other topology has no face element, so keep them as
+				// the per vertex "s"/"t" properties the reader understands
+				// instead of silently dropping them.
+				if mesh.Topology() != modeling.TriangleTopology {
+					writers = append(writers, Vector2PropertyWriter{
+						ModelAttribute: p,
+						Type:           Float,
+						PlyPropertyX:   "s",
+						PlyPropertyY:   "t",
+					})
+				}
 				continue
 			}
 			writers = append(writers, Vector2PropertyWriter{
